@@ -37,8 +37,10 @@ def cases(tier, seed):
     for fr in pick_frames(FRAMES, tier, seed):
         for k in ks:
             for sub in itertools.combinations(range(16), k):
-                for form in ("array2d", "array1d", "grid"):
+                for form in ("array2d", "array1d", "grid", "int", "int_e", "F"):
                     if form != "array2d" and (sum(sub) % 4 != 0):
+                        continue
+                    if form in ("int", "int_e") and fr[0] * 0.5 != int(fr[0] * 0.5) and fr != [1.0, 0.0] and fr != [1.0, 1e7]:
                         continue
                     yield dict(kind="hull", frame=fr, sub=list(sub), form=form)
     yield dict(kind="hull_invalid")
@@ -132,6 +134,17 @@ def run(case, rec):
         qe = np.array([q[0] * sc + off for q in qs]).reshape(11, 11)
         qn = np.array([q[1] * sc - off / 2 for q in qs]).reshape(11, 11)
         form = case["form"]
+        if form in ("int", "int_e"):
+            # integer-valued data coordinates with an integer dtype (both, or the easting only)
+            if not (np.all(de == np.round(de)) and np.all(dn == np.round(dn))):
+                rec.trivial = True
+                rec.skip("frame does not keep the data coordinates integer valued")
+                return
+            de = de.astype(np.int64)
+            if form == "int":
+                dn = dn.astype(np.int64)
+        if form == "F":
+            qe, qn = np.asfortranarray(qe), np.asfortranarray(qn)
         if form == "grid":
             vals = np.arange(121.0).reshape(11, 11) + 1.0
             grid = xr.Dataset({"v": (("northing", "easting"), vals)}, coords={"easting": qe[0, :], "northing": qn[:, 0]})
@@ -142,7 +155,7 @@ def run(case, rec):
             mask = ~np.isnan(gv)
             rec.check(bool(np.all(gv[mask] == vals[mask])), "grid form changed values it kept")
         else:
-            a, b = (qe, qn) if form == "array2d" else (qe.ravel(), qn.ravel())
+            a, b = (qe.ravel(), qn.ravel()) if form == "array1d" else (qe, qn)
             before = (de.tobytes(), dn.tobytes(), a.tobytes(), b.tobytes())
             got = call(rec, vd.convexhull_mask, (de, dn), coordinates=(a, b))
             if raised(got):
